@@ -192,11 +192,12 @@ PROPS = {
         "groups": [{"group": "hx", "quick_cases": 2000, "thorough_cases": 100000},
                    {"group": "frame", "quick_cases": 1500, "thorough_cases": 30000},
                    {"group": "socks", "quick_cases": 800, "thorough_cases": 10000},
-                   {"group": "dest", "quick_cases": 1500, "thorough_cases": 30000}],
+                   {"group": "dest", "quick_cases": 1500, "thorough_cases": 30000},
+                   {"group": "http", "quick_cases": 2500, "thorough_cases": 40000, "ignore_sigs": ["second_request_to_first_origin/http_keepalive"]}],
         "rule": "hx case = an established victim session (either role) and an independent sibling session of the same process; 2-14 hostile feeds: random bytes, every command (incl. unknown bytes) x ids {0,1,2,3,2^31-1,2^32-1} x lengths {0,1,7,100,65535}, hostile Settings/ServerSettings payloads (version strings, junk, 2000-byte lines), hostile scheme payloads (overflow sizes, stop=2^32-1, junk), valid traffic mutated by bit flips, truncation, duplication, length-field / command / id corruption, fragmented; then keep-alive probes to victim and sibling; fixed: all command x id x length combinations on both roles, the pushed overflow scheme; "
-                "frame/socks/dest: their malformed streams; every group also reports any panic in a library task; non-trivial = more than 5 ops (hx) / as in the group's own rule; distinct by SHA-1 of the op lines",
+                "frame/socks/dest/http: their malformed streams (http: header blocks with byte flips, delimiter insertions, odd ports and authorities, multi-byte characters at every small offset of a line); every group also reports any panic in a library task; non-trivial = more than 5 ops (hx) / as in the group's own rule; distinct by SHA-1 of the op lines",
         "level_text": "kernel-checked theorems: decoding is total and makes progress on every byte string (receive_loop_total), while the transport accepts writes no frame of any kind except the fatal Alert closes an open session (closes_only_on_alert, all commands/ids/payloads/roles), quiet frames keep the state invariants (quiet_frames_keep_invariant), accepted scheme payloads only yield in-range sizes (scheme_payloads_sane), parser verdicts are stable under extension (parsers_prefix_stable), a frame received by one session leaves every other session untouched (sibling_untouched). That the Rust code does not panic or hang is established by the correspondence run on hostile inputs — bounded, and labelled as such: the model never emits 'panicked' or 'blocked', so any panic, abort or hang is a disagreement with a replay (virtual watchdog per op, real-time watchdog per case, process-death detection)",
-        "level_note": "trusted: Lean kernel, extract.py, harness+driver glue; the no-panic/no-hang claim is bounded by the cases run (2000 quick / 100000 thorough hostile histories); text-parsed payloads are ASCII in model-compared cases (non-ASCII text goes through from_utf8_lossy; covered by the oracle-only streams of the pad/push groups); hostile bytes on the HTTP listener are part of C17's group",
+        "level_note": "trusted: Lean kernel, extract.py, harness+driver glue; the no-panic/no-hang claim is bounded by the cases run (2000 quick / 100000 thorough hostile histories); text-parsed payloads are ASCII in model-compared cases (non-ASCII text goes through from_utf8_lossy; covered by the oracle-only streams of the pad/push groups); hostile bytes on the HTTP listener: the http group's parse stream",
         "assumptions": COMMON_ASSUMPTIONS,
         "explanation": "totality/invariant theorems + hostile-input correspondence",
     },
